@@ -20,6 +20,9 @@ pub enum Op {
     BreakGrammar(usize),
     BreakLexer,
     Build,
+    /// the grammar is edited and its file time is exactly that of the parser module generated
+    /// before (coarse timestamps, a tool that restores times, an edit within one clock tick)
+    EditGrammarAtOutputTime(usize),
 }
 
 #[derive(Serialize, Deserialize, Debug, Clone)]
@@ -59,7 +62,7 @@ const BROKEN_LEXER: &str = "%%\n[0-9+ 'INT'\n";
 const OPTIONS: &[(&str, usize)] = &[
     ("parser_mod_name", 3),
     ("lexer_mod_name", 2),
-    ("visibility", 3),
+    ("visibility", 7),
     ("edition", 3),
     ("recoverer", 3),
     ("yacckind", 3),
@@ -101,7 +104,11 @@ impl Settings {
         spec.visibility = match self.get("visibility") {
             0 => None,
             1 => Some("Public".into()),
-            _ => Some("PublicCrate".into()),
+            2 => Some("PublicCrate".into()),
+            3 => Some("PublicIn:crate::a".into()),
+            4 => Some("PublicIn:crate::b".into()),
+            5 => Some("PublicSuper".into()),
+            _ => Some("PublicSelf".into()),
         };
         spec.edition = match self.get("edition") {
             0 => None,
@@ -208,7 +215,7 @@ impl Prop for C18 {
         let n = ch.range(1, 8);
         let mut ops = vec![];
         for _ in 0..n {
-            let op = match ch.weighted(&[4, 2, 1, 4, 2, 1, 3]) {
+            let op = match ch.weighted(&[4, 2, 1, 4, 2, 1, 3, 1]) {
                 0 => Op::EditGrammar(ch.pick(GRAMMARS.len())),
                 1 => Op::EditLexer(ch.pick(LEXERS.len())),
                 2 => Op::Touch,
@@ -218,7 +225,8 @@ impl Prop for C18 {
                 }
                 4 => Op::BreakGrammar(ch.pick(BROKEN_GRAMMARS.len())),
                 5 => Op::BreakLexer,
-                _ => Op::Build,
+                6 => Op::Build,
+                _ => Op::EditGrammarAtOutputTime(ch.pick(GRAMMARS.len())),
             };
             ops.push(op);
             if ch.chance(1, 2) {
@@ -231,13 +239,13 @@ impl Prop for C18 {
         serde_json::to_value(Case { ops, probe_one_call_stale_parser: false }).unwrap()
     }
     fn rule(&self) -> String {
-        "Histories of 1-8 operations (each possibly followed by Build, always ending in Build) over {EditGrammar(6 variants), EditLexer(6 variants, two lacking tokens some grammars use), Touch, SetOption(17 builder options incl. mod names, visibility, edition, recoverer, yacckind, serialisation format, error_on_conflicts, warnings flags, lexer flags, strictness about tokens missing from the lexer / from the parser, the flow: two builders in turn or the one-call CTLexerBuilder::lrpar_config, grammar_path switched between two files of the same leaf name in different directories, and grammar_path naming the file through a symbolic link), BreakGrammar(4 kinds: syntax error, unknown rule, broken %grmtools section, unexpected conflicts), BreakLexer, Build}. Every Build runs the real CTParserBuilder/CTLexerBuilder in a process of its own; file times come from a logical clock. Oracle after every Build: successful => parser and lexer modules byte-identical (timestamp masked) to a clean build of the same sources/settings into an empty directory; nothing changed since the last successful build => regenerated()==false and files untouched; grammar text or a parser-relevant option changed => regenerated()==true; failed => no generated file from the earlier sources left at the output path. Evaluation = one Build step. Non-trivial: a change between two builds or a failing build after a successful one; distinct by hash(history).".into()
+        "Histories of 1-8 operations (each possibly followed by Build, always ending in Build) over {EditGrammar(6 variants), EditGrammarAtOutputTime (an edit whose file time equals that of the parser module generated before), EditLexer(6 variants, two lacking tokens some grammars use), Touch, SetOption(17 builder options incl. mod names, visibility (all variants, pub(in ..) with two different paths), edition, recoverer, yacckind, serialisation format, error_on_conflicts, warnings flags, lexer flags, strictness about tokens missing from the lexer / from the parser, the flow: two builders in turn or the one-call CTLexerBuilder::lrpar_config, grammar_path switched between two files of the same leaf name in different directories, and grammar_path naming the file through a symbolic link), BreakGrammar(4 kinds: syntax error, unknown rule, broken %grmtools section, unexpected conflicts), BreakLexer, Build}. Every Build runs the real CTParserBuilder/CTLexerBuilder in a process of its own; file times come from a logical clock. Oracle after every Build: successful => parser and lexer modules byte-identical (timestamp masked) to a clean build of the same sources/settings into an empty directory; nothing changed since the last successful build => regenerated()==false and files untouched; grammar text or a parser-relevant option changed => regenerated()==true; failed => no generated file from the earlier sources left at the output path. Evaluation = one Build step. Non-trivial: a change between two builds or a failing build after a successful one; distinct by hash(history).".into()
     }
     fn assumptions(&self) -> Vec<String> {
         vec!["a Touch (same bytes, newer time) may or may not regenerate".into()]
     }
     fn required_classes(&self, _tier: Tier) -> Vec<&'static str> {
-        vec!["build-ok", "build-failed", "unchanged-rebuild", "change-between-builds", "fail-after-success", "option-change"]
+        vec!["build-ok", "build-failed", "unchanged-rebuild", "change-between-builds", "fail-after-success", "option-change", "grammar-edited-at-output-time"]
     }
     fn evaluate(&self, case: &Value) -> Outcome {
         let case: Case = serde_json::from_value(case.clone()).unwrap();
@@ -291,6 +299,19 @@ impl Prop for C18 {
                     std::fs::write(&gps[gdir], &gtext).unwrap();
                     set_mtime(&gps[gdir], clock);
                     // rewriting the same bytes is a Touch
+                    touched = true;
+                }
+                Op::EditGrammarAtOutputTime(k) => {
+                    gtext = GRAMMARS[*k].to_string();
+                    gtexts[gdir] = gtext.clone();
+                    std::fs::write(&gps[gdir], &gtext).unwrap();
+                    match std::fs::metadata(&po).ok().map(|m| FileTime::from_last_modification_time(&m)) {
+                        Some(t) => {
+                            let _ = set_file_mtime(&gps[gdir], t);
+                            o.class("grammar-edited-at-output-time");
+                        }
+                        None => set_mtime(&gps[gdir], clock),
+                    }
                     touched = true;
                 }
                 Op::BreakGrammar(k) => {
